@@ -5,42 +5,51 @@ import MesaModel.Proofs.ComputedCycle
 
 Property theorems only (model: `Model/Computed.lean`, helper lemmas: `Proofs/Computed.lean`, `Proofs/ComputedCycle.lean`).
 
-`init decls progs`: owners with their declared Observables / Computables, every Observable holding 0, and the
+`init decls progs`: owners with their declared Observables / Computables, every Observable holding 0 (values are ints
+or `None`: `V = Option Int`), and the
 Computables that user handler `h` reads while it is being notified (`progs h`).  Operations: `define` (assign
 a `Computed` whose function is a read tree), `assign`, `read`, user `observe` / `unobserve` / `drop`.
 `Den s t v`: the function `t` returns `v` when it is evaluated in state `s` from scratch (Observables from
-the store, Computables by evaluating *their* functions) — "what its function would return if evaluated right now".
+the store, Computables by evaluating *their* functions) — "what its function would return if evaluated right now";
+`DenFail s t`: evaluated from scratch it raises (it arrives at a `fail` node, or at the read of a Computable whose
+function raises, or of one that is not defined).
 -/
 namespace Mesa.Computed
 open Mesa.Signals
 
-/-- states reachable from a fresh model whose user handlers do **not** read Computables while notified
-    (`progs = []`, see G7 below) by any sequence of successful operations: definitions of pure functions that
-    read only earlier Computables, assignments (also restoring old values), reads, handler (un)subscriptions
-    and deaths -/
-inductive Reachable (decls : Nat → List Decl) : St → Prop
-  | init : Reachable decls (init decls fun _ => [])
-  | step {s s' : St} {op : Op} {fuel : Nat} {v : Int} (h : Reachable decls s) (ok : OpOK s op)
-      (hs : step fuel s op = some (s', .ok v)) : Reachable decls s'
+/-- states reachable from a fresh model — user handler `h` reads the Computables `progs h` whenever it is notified —
+    by any sequence of operations, **whether they returned or raised**: definitions of pure functions (which may raise
+    on their own: `fail`) that read only earlier Computables, assignments (also restoring old values), reads, handler
+    (un)subscriptions and deaths; `OpOK`: a handler that reads Computables subscribes to Observables, a handler that
+    subscribes to a Computable is passive -/
+inductive Reachable (decls : Nat → List Decl) (progs : Nat → List Nat) : St → Prop
+  | init : Reachable decls progs (init decls progs)
+  | step {s s' : St} {op : Op} {fuel : Nat} {r : R} (h : Reachable decls progs s) (ok : OpOK s op)
+      (hs : step fuel s op = some (s', r)) : Reachable decls progs s'
 
-theorem reachable_good {decls : Nat → List Decl} (hd : DeclsOK decls) {s : St} (h : Reachable decls s) : Good s := by
+theorem reachable_good {decls : Nat → List Decl} (hd : DeclsOK decls) {progs : Nat → List Nat} {s : St}
+    (h : Reachable decls progs s) : Good s := by
   induction h with
-  | init => exact init_good hd
+  | init => exact init_good hd progs
   | step _ ok hs ih => exact step_good _ ih ok hs
 
-/-- **No stale read** (partial: user handlers that read Computables while notified are excluded — G7).
+/-- **No stale read** (G7 repaired: user handlers may read Computables while an Observable notifies them; partial:
+    a handler subscribed to a *Computable* is passive — one that read Computables there would run in the middle of the
+    dirty cascade or of an evaluation).
     In every reachable state, whatever dependency structure (several owners, branches that switch what is
-    read, chains of Computables) and whatever history of assignments and reads: a read of a Computable
-    that returns `v` returns what its function evaluates to now; the read changes no Observable. -/
-theorem C17_no_stale_partial {decls : Nat → List Decl} (hd : DeclsOK decls) {s s' : St} (h : Reachable decls s)
-    {fuel c : Nat} {v : Int} (hr : step fuel s (.read c) = some (s', .ok v)) :
+    read, chains of Computables) and whatever history of assignments and reads — including reads and
+    definitions whose function raised (G11 repaired: nothing cached before a failure is ever served again) —:
+    a read of a Computable that returns `v` returns what its function evaluates to now; the read changes no
+    Observable. -/
+theorem C17_no_stale_partial {decls : Nat → List Decl} (hd : DeclsOK decls) {s s' : St} {progs : Nat → List Nat} (h : Reachable decls progs s)
+    {fuel c : Nat} {v : V} (hr : step fuel s (.read c) = some (s', .ok v)) :
     s'.store = s.store ∧ ∃ x, s'.comps c = some x ∧ Den s' x.tree v := by
   obtain ⟨_, hst, _, x, hx, _, _, hden⟩ := read_spec fuel (reachable_good hd h) hr
   exact ⟨hst, x, hx, hden⟩
 
 /-- … and the same for the value a definition returns (`owner.name = Computed(f)` evaluates once). -/
-theorem C17_define_fresh {decls : Nat → List Decl} (hd : DeclsOK decls) {s s' : St} (h : Reachable decls s)
-    {fuel c o n : Nat} {t : Tree} {v : Int} (ok : DefineOK s c o n t)
+theorem C17_define_fresh {decls : Nat → List Decl} (hd : DeclsOK decls) {s s' : St} {progs : Nat → List Nat} (h : Reachable decls progs s)
+    {fuel c o n : Nat} {t : Tree} {v : V} (ok : DefineOK s c o n t)
     (hr : step fuel s (.define c o n t) = some (s', .ok v)) : ∃ x, s'.comps c = some x ∧ x.tree = t ∧ Den s' t v := by
   have g := reachable_good hd h
   obtain ⟨w0, i0⟩ := define_pre g.stat g.inv ok
@@ -49,9 +58,56 @@ theorem C17_define_fresh {decls : Nat → List Decl} (hd : DeclsOK decls) {s s' 
   have ht' : x.tree = t := ht
   exact ⟨x, hx, ht', by rw [← ht']; exact hden⟩
 
+/-- **A read raises only if the function raises now** (G11, G12 repaired): in every reachable state, if reading a
+    defined Computable raises, then its function evaluated right now raises (so the dirty pre-check never lets the
+    failure of a Computable through that the function would not read any more), no Observable changed, and the
+    Computed is marked to run its function again at the next read instead of re-validating an older value. -/
+theorem C17_raise_is_fresh {decls : Nat → List Decl} (hd : DeclsOK decls) {s s' : St} {progs : Nat → List Nat} (h : Reachable decls progs s)
+    {fuel c : Nat} {x : Comp} (hx : s.comps c = some x) {e : Err}
+    (hr : step fuel s (.read c) = some (s', .err e)) :
+    s'.store = s.store ∧ ∃ y, s'.comps c = some y ∧ y.tree = x.tree ∧ DenFail s' y.tree ∧
+      y.first = true ∧ y.dirty = true := by
+  obtain ⟨_, hst, se, _, herr⟩ := read_spec_all fuel (reachable_good hd h) hr
+  rcases herr e rfl with hnone | ⟨y, hy, hyf, hyd, hdf⟩
+  · rw [hx] at hnone; cases hnone
+  · obtain ⟨_, _, ht⟩ := (se.comps c).2 x y hx hy
+    exact ⟨hst, y, hy, ht, hdf, hyf, hyd⟩
+
+/-- "returns `v`" and "raises" exclude each other (and the value is unique): the two theorems above never both apply -/
+theorem C17_den_deterministic {s : St} {t : Tree} {v : V} (h : Den s t v) :
+    (∀ v', Den s t v' → v' = v) ∧ ¬ DenFail s t := by
+  induction h with
+  | ret v => exact ⟨fun v' h' => by cases h'; rfl, fun h' => by cases h'⟩
+  | read k cont v _ ih =>
+    refine ⟨fun v' h' => ?_, fun h' => ?_⟩
+    · cases h' with | read _ _ _ h' => exact ih.1 v' h'
+    · cases h' with | read _ _ h' => exact ih.2 h'
+  | readC c cont x a v hx _ _ iha ih =>
+    refine ⟨fun v' h' => ?_, fun h' => ?_⟩
+    · cases h' with
+      | readC _ _ x' a' _ hx' ha' h' =>
+        rw [hx] at hx'; cases hx'
+        have := iha.1 a' ha'; subst this
+        exact ih.1 v' h'
+    · cases h' with
+      | readCFail _ _ x' hx' hf => rw [hx] at hx'; cases hx'; exact iha.2 hf
+      | readC _ _ x' a' hx' ha' hf =>
+        rw [hx] at hx'; cases hx'
+        have := iha.1 a' ha'; subst this
+        exact ih.2 hf
+      | readCUndef _ _ hx' => rw [hx] at hx'; cases hx'
+
+/-- In every reachable state a Computed that never ran, or whose last evaluation raised, is dirty (so it is not served
+    from the cache), and it remembers — and is subscribed to — exactly what that evaluation read before it raised
+    (an initial part of a way through its function; nothing for a Computed that never ran). -/
+theorem C17_failed_is_dirty {decls : Nat → List Decl} (hd : DeclsOK decls) {s : St} {progs : Nat → List Nat} (h : Reachable decls progs s)
+    {c : Nat} {x : Comp} (hx : s.comps c = some x) (hf : x.first = true) :
+    x.dirty = true ∧ ∃ ps, Prefix x.tree ps ∧ ∀ e, e ∈ ps ↔ e ∈ x.parents :=
+  ((reachable_good hd h).inv.evald c x hx (by simp [NoS])).1 hf
+
 /-- **The cache is never stale**: in every reachable state every Computed that is not marked dirty holds
     exactly the value its function evaluates to now (so a read served from the cache is right). -/
-theorem C17_clean_is_fresh {decls : Nat → List Decl} (hd : DeclsOK decls) {s : St} (h : Reachable decls s)
+theorem C17_clean_is_fresh {decls : Nat → List Decl} (hd : DeclsOK decls) {s : St} {progs : Nat → List Nat} (h : Reachable decls progs s)
     {c : Nat} {x : Comp} (hx : s.comps c = some x) (hc : x.dirty = false) : ∃ v, x.value = some v ∧ Den s x.tree v :=
   clean_den (reachable_good hd h).inv c x hx hc
 
@@ -59,30 +115,80 @@ theorem C17_clean_is_fresh {decls : Nat → List Decl} (hd : DeclsOK decls) {s :
     cached value is the result of following the function along the remembered (reference, value) pairs, and
     nothing else is remembered. -/
 theorem C17_remembers_exactly_last_reads {decls : Nat → List Decl} (hd : DeclsOK decls) {s : St}
-    (h : Reachable decls s) {c : Nat} {x : Comp} (hx : s.comps c = some x) (hf : x.first = false) :
+    {progs : Nat → List Nat} (h : Reachable decls progs s) {c : Nat} {x : Comp} (hx : s.comps c = some x) (hf : x.first = false) :
     ∃ v ps, x.value = some v ∧ PathR x.tree ps v ∧ ∀ e, e ∈ ps ↔ e ∈ x.parents :=
   ((reachable_good hd h).inv.evald c x hx (by simp [NoS])).2 hf
 
-/-- **Minimal recomputation** (partial: stated for the Computable that is read; the Computables it reads in
-    turn satisfy the same statement at their own reads — lemma `callC_spec` — but this is not assembled into
-    one statement about all of them).  A read runs the function body at most once, and only if it never ran
-    before or some value it read last time (by the previous theorem: some remembered pair) differs from the
-    present value of that Observable / the up-to-date value of that Computable. -/
-theorem C17_minimal_partial {decls : Nat → List Decl} (hd : DeclsOK decls) {s s' : St} (h : Reachable decls s)
-    {fuel c : Nat} {v : Int} {x : Comp} (hx : s.comps c = some x) (hr : step fuel s (.read c) = some (s', .ok v)) :
+/-- **Minimal recomputation, at most once** (partial: "at most once" is stated for the Computable that is read; for
+    every other Computable `C17_minimal` gives the reasons but no count — a Computable read in turn whose function
+    raises can run twice in one read, once in the dirty pre-check and once more when the function reads it: the code
+    does that).  A read — returning or raising — runs the function body at most once, and
+    only if it never ran before, or raised the last time it ran (`first`), or some value it read last time (by the
+    previous theorem: some remembered pair) differs from the present value of that Observable / the up-to-date
+    value of that Computable (or that Computable raises now). -/
+theorem C17_minimal_partial {decls : Nat → List Decl} (hd : DeclsOK decls) {s s' : St} {progs : Nat → List Nat} (h : Reachable decls progs s)
+    {fuel c : Nat} {r : R} {x : Comp} (hx : s.comps c = some x) (hr : step fuel s (.read c) = some (s', r)) :
     ∃ y, s'.comps c = some y ∧
       (y.evals = x.evals ∨ (y.evals = x.evals + 1 ∧ (x.first = true ∨ ∃ e ∈ x.parents, Stale s' e))) := by
   have g := reachable_good hd h
-  obtain ⟨hok, _⟩ := (exec_IH fuel).get c s s' (.ok v) NoS g.stat g.inv (by simp [NoS])
+  obtain ⟨hok, herr⟩ := (exec_IH fuel).get c s s' r NoS g.stat g.inv (by simp [NoS])
     (fun q hq => by simp [NoS] at hq) hr
-  obtain ⟨y, hy, _, _, hj⟩ := (hok v rfl).clean
-  refine ⟨y, hy, ?_⟩
-  rcases hj x hx with hj | ⟨h1, _, h3⟩
-  · exact Or.inl hj
-  · exact Or.inr ⟨h1, h3⟩
+  have fin : ∀ y, Justified x s' y →
+      (y.evals = x.evals ∨ (y.evals = x.evals + 1 ∧ (x.first = true ∨ ∃ e ∈ x.parents, Stale s' e))) := by
+    intro y hj
+    rcases hj with hj | ⟨h1, _, h3⟩
+    · exact Or.inl hj
+    · exact Or.inr ⟨h1, h3⟩
+  cases r with
+  | ok v =>
+    obtain ⟨y, hy, _, _, hj⟩ := (hok v rfl).clean
+    exact ⟨y, hy, fin y (hj x hx)⟩
+  | err e =>
+    rcases (herr e rfl).failed with hnone | ⟨y, hy, _, _, _, hj⟩
+    · rw [hx] at hnone; cases hnone
+    · exact ⟨y, hy, fin y (hj x hx)⟩
+
+/-- **Minimal recomputation, for every Computable** (the statement assembled over all nested reads, pre-checks and
+    evaluations of one read, returning or raising): for each Computable `q` — the one read, the ones it reads in turn,
+    all others — either its function did not run, and then nothing at all happened to `q` unless it was re-validated
+    (it is no longer dirty); or its function ran, and then `q` was dirty and it had never run / had raised the last
+    time it ran, or some value it read last time differs from the present value of that Observable / the up-to-date
+    value of that Computable (or that Computable raises now). -/
+theorem C17_minimal {decls : Nat → List Decl} (hd : DeclsOK decls) {s s' : St} {progs : Nat → List Nat} (h : Reachable decls progs s)
+    {fuel c : Nat} {r : R} (hr : step fuel s (.read c) = some (s', r)) :
+    ∀ q x, s.comps q = some x → ∃ y, s'.comps q = some y ∧
+      ((y.evals = x.evals ∧ (y.dirty = true → y = x)) ∨
+       (x.evals < y.evals ∧ x.dirty = true ∧ (x.first = true ∨ ∃ e ∈ x.parents, Stale s' e))) := by
+  have g := reachable_good hd h
+  obtain ⟨hok, herr⟩ := (exec_IH fuel).get c s s' r NoS g.stat g.inv (by simp [NoS])
+    (fun q hq => by simp [NoS] at hq) hr
+  have key : Below (· ≤ c) s s' ∧ ∀ q, c < q → s'.comps q = s.comps q := by
+    cases r with
+    | ok v => exact ⟨(hok v rfl).below, fun q hq => (hok v rfl).above q hq (by rw [g.cur]; simp)⟩
+    | err e => exact ⟨(herr e rfl).below, (herr e rfl).above⟩
+  intro q x hx
+  by_cases hq : q ≤ c
+  · obtain ⟨y, hy, hj⟩ := key.1 q x hq hx
+    exact ⟨y, hy, hj⟩
+  · exact ⟨x, by rw [key.2 q (by omega)]; exact hx, Or.inl ⟨rfl, fun _ => rfl⟩⟩
+
+/-- **A read runs nothing it need not run, also among the Computables it reads in turn** (the assembled part of
+    minimality): whatever a read of `c` — returning or raising — does in nested reads, pre-checks and evaluations,
+    every Computable whose cache is valid (not dirty) stays exactly as it is — its function does not run, its
+    remembered values and its counter are untouched — and so does every Computable defined after `c`. -/
+theorem C17_read_leaves_clean_and_later_untouched {decls : Nat → List Decl} (hd : DeclsOK decls) {s s' : St}
+    {progs : Nat → List Nat} (h : Reachable decls progs s) {fuel c : Nat} {r : R} (hr : step fuel s (.read c) = some (s', r)) :
+    (∀ q x, s.comps q = some x → x.dirty = false → s'.comps q = some x) ∧
+    (∀ q, c < q → s'.comps q = s.comps q) := by
+  have g := reachable_good hd h
+  obtain ⟨hok, herr⟩ := (exec_IH fuel).get c s s' r NoS g.stat g.inv (by simp [NoS])
+    (fun q hq => by simp [NoS] at hq) hr
+  cases r with
+  | ok v => exact ⟨(hok v rfl).keepClean, fun q hq => (hok v rfl).above q hq (by rw [g.cur]; simp)⟩
+  | err e => exact ⟨(herr e rfl).keepClean, (herr e rfl).above⟩
 
 /-- A read of a Computable that is not dirty runs no function at all and changes nothing. -/
-theorem C17_cached_read_is_free {decls : Nat → List Decl} (hd : DeclsOK decls) {s : St} (h : Reachable decls s)
+theorem C17_cached_read_is_free {decls : Nat → List Decl} (hd : DeclsOK decls) {s : St} {progs : Nat → List Nat} (h : Reachable decls progs s)
     {c : Nat} {x : Comp} (hx : s.comps c = some x) (hc : x.dirty = false) (fuel : Nat) :
     ∃ v, x.value = some v ∧ step (fuel + 1) s (.read c) = some (s, .ok v) := by
   have g := reachable_good hd h
@@ -102,8 +208,8 @@ evaluations, notification cascades, user handlers), each returning normally — 
     (cached, re-validated or re-evaluated, whatever their functions and the notified handlers do) and completed
     assignments — arrives at an assignment to `k`, then the evaluation raises `ValueError` at that very assignment:
     the assignment is not performed, no value is returned, nothing loops. -/
-theorem C17_cycle_rejected (f p : Nat) (k : Key) (cont : Int → Tree) (s : St) (hcur : s.cur = some p)
-    (hdepth : 0 < s.depth) {v : Int} {next : Tree} {s' : St}
+theorem C17_cycle_rejected (f p : Nat) (k : Key) (cont : V → Tree) (s : St) (hcur : s.cur = some p)
+    (hdepth : 0 < s.depth) {v : V} {next : Tree} {s' : St}
     (path : TSteps (exec (f + 1)) (.read k cont) s (.write k v next) s') :
     evalTree (exec (f + 1)) (.read k cont) s = some (s', .err .value) := by
   rw [evalTree_tsteps path]
@@ -120,15 +226,15 @@ theorem C17_cycle_rejected (f p : Nat) (k : Key) (cont : Int → Tree) (s : St) 
 
 /-- whatever values it reads, the function arrives at an assignment to `k` -/
 inductive AlwaysWrites (k : Key) : Tree → Prop
-  | write (v : Int) (next : Tree) : AlwaysWrites k (.write k v next)
-  | other (k' : Key) (v : Int) (next : Tree) (h : AlwaysWrites k next) : AlwaysWrites k (.write k' v next)
-  | read (k' : Key) (cont : Int → Tree) (h : ∀ x, AlwaysWrites k (cont x)) : AlwaysWrites k (.read k' cont)
-  | readC (c : Nat) (cont : Int → Tree) (h : ∀ x, AlwaysWrites k (cont x)) : AlwaysWrites k (.readC c cont)
+  | write (v : V) (next : Tree) : AlwaysWrites k (.write k v next)
+  | other (k' : Key) (v : V) (next : Tree) (h : AlwaysWrites k next) : AlwaysWrites k (.write k' v next)
+  | read (k' : Key) (cont : V → Tree) (h : ∀ x, AlwaysWrites k (cont x)) : AlwaysWrites k (.read k' cont)
+  | readC (c : Nat) (cont : V → Tree) (h : ∀ x, AlwaysWrites k (cont x)) : AlwaysWrites k (.readC c cont)
 
 /-- … and with no hypothesis about the execution: a function that reads `k` and then, along every branch, gets to
     an assignment to `k` never returns a value — for every state, every fuel, whatever the Computables it reads and
     the handlers it triggers do (they may raise or not terminate; they cannot make the cycle pass). -/
-theorem C17_cycle_never_returns (fuel p : Nat) (k : Key) (cont : Int → Tree) (s : St) (hcur : s.cur = some p)
+theorem C17_cycle_never_returns (fuel p : Nat) (k : Key) (cont : V → Tree) (s : St) (hcur : s.cur = some p)
     (hdepth : 0 < s.depth) (hw : ∀ x, AlwaysWrites k (cont x)) {s' : St} {r : R}
     (h : evalTree (exec fuel) (.read k cont) s = some (s', r)) : ∃ e, r = .err e := by
   have key : ∀ t, AlwaysWrites k t → ∀ s s' r, Inside p k s → evalTree (exec fuel) t s = some (s', r) → ∃ e, r = .err e := by
@@ -206,9 +312,9 @@ theorem C17_cycle_never_returns (fuel p : Nat) (k : Key) (cont : Int → Tree) (
       ⟨c1.trans hcur, by show 0 < s1.depth; rw [d1]; exact hdepth, List.mem_cons_self⟩ h
 
 /-- along the path the function takes in the store `σ`: reads of Observables, then an assignment to `k` -/
-inductive ReadsThenWrites (σ : Key → Int) (k : Key) : Tree → Prop
-  | write (v : Int) (t : Tree) : ReadsThenWrites σ k (.write k v t)
-  | read (k' : Key) (cont : Int → Tree) (h : ReadsThenWrites σ k (cont (σ k'))) : ReadsThenWrites σ k (.read k' cont)
+inductive ReadsThenWrites (σ : Key → V) (k : Key) : Tree → Prop
+  | write (v : V) (t : Tree) : ReadsThenWrites σ k (.write k v t)
+  | read (k' : Key) (cont : V → Tree) (h : ReadsThenWrites σ k (cont (σ k'))) : ReadsThenWrites σ k (.read k' cont)
 
 theorem evalTree_cycle (f p : Nat) (k : Key) : ∀ (t : Tree) (s : St), ReadsThenWrites s.store k t → s.cur = some p →
     s.proc.contains k = true → ∃ s' e, evalTree (exec (f + 1)) t s = some (s', .err e) := by
@@ -242,7 +348,7 @@ theorem evalTree_cycle (f p : Nat) (k : Key) : ∀ (t : Tree) (s : St), ReadsThe
 
 /-- The direct cycle (the function reads `k`, reads other Observables, assigns `k`) needs no hypothesis about the
     execution at all: evaluating it — whatever the state — always ends, with an exception. -/
-theorem C17_cycle_rejected_direct (f p : Nat) (k : Key) (cont : Int → Tree) (s : St) (hcur : s.cur = some p)
+theorem C17_cycle_rejected_direct (f p : Nat) (k : Key) (cont : V → Tree) (s : St) (hcur : s.cur = some p)
     (h : ReadsThenWrites s.store k (cont (s.store k))) :
     ∃ s' e, evalTree (exec (f + 1)) (.read k cont) s = some (s', .err e) := by
   simp only [evalTree, hcur]
@@ -274,7 +380,13 @@ theorem C17_cycle_record_per_evaluation (decls : Nat → List Decl) (progs : Nat
   have f := step_frame fuel h
   exact ⟨f.cur.trans h1, f.depth.trans h2, f.idle h2 h1 h3⟩
 
-/-! ### the full statement of `no_stale` and its refutation (open finding G7) -/
+/-! ### examples: values, handlers that read Computables while notified (finding G7, repaired) -/
+
+/-- for the examples: an int as a value, int arithmetic on values (`None` is contagious) -/
+@[reducible] def i (n : Int) : V := some n
+def vmul (a : Int) (x : V) : V := x.map (a * ·)
+def vdiv (a : Int) (x : V) : V := x.map (a / ·)
+def vadd (x y : V) : V := x.bind fun a => y.map (a + ·)
 
 def runOps (fuel : Nat) : St → List Op → Option (St × List R)
   | s, [] => some (s, [])
@@ -286,45 +398,108 @@ def runOps (fuel : Nat) : St → List Op → Option (St × List R)
 /-- one owner with an Observable `x` (name 0) and a Computable `c` (name 1) -/
 def exDecls : Nat → List Decl := fun o => if o = 0 then [⟨0, .obs, [.change]⟩, ⟨1, .comp, [.change]⟩] else []
 /-- `c = 10 * x` -/
-def exTree : Tree := .read (0, 0) fun x => .ret (10 * x)
+def exTree : Tree := .read (0, 0) fun x => .ret (vmul 10 x)
 
-theorem den_exTree {s : St} {v : Int} (h : Den s exTree v) : v = 10 * s.store (0, 0) := by
+theorem den_exTree {s : St} {v : V} (h : Den s exTree v) : v = vmul 10 (s.store (0, 0)) := by
   cases h with
   | read _ _ _ h => cases h; rfl
 
 def g7progs : Nat → List Nat := fun h => if h = 0 then [0] else []
-def g7ops : List Op := [.define 0 0 1 exTree, .observe (0, 0) 0, .assign (0, 0) 7, .read 0]
+def g7ops : List Op := [.define 0 0 1 exTree, .observe (0, 0) 0, .assign (0, 0) (i 7), .read 0]
 
-/-- **G7 (open): the full `no_stale` — user handlers may read Computables while being notified — is false.**
-    `c = Computed(10*x)` (x = 0); `observe(x, h)` where `h` reads `c`; `x = 7; read c` returns 0 instead of 70:
-    the handler's read re-validated `c` against the old `x` (`Observable.__set__` stores after notifying),
-    so `c` is clean when the store happens. -/
-theorem C17_no_stale_refuted_with_reading_handler :
-    ∃ (s : St) (rs : List R), runOps 30 (init exDecls g7progs) g7ops = some (s, rs) ∧
-      rs.getLast? = some (.ok 0) ∧ ¬ Den s exTree 0 := by
-  have h : ((runOps 30 (init exDecls g7progs) g7ops).map fun r => (r.2, r.1.store (0, 0))) =
-      some ([.ok 0, .ok 0, .ok 0, .ok 0], 7) := by decide +kernel
-  cases hr : runOps 30 (init exDecls g7progs) g7ops with
-  | none => rw [hr] at h; cases h
-  | some res =>
-    obtain ⟨s, rs⟩ := res
-    rw [hr] at h
-    simp only [Option.map_some, Option.some.injEq, Prod.mk.injEq] at h
-    refine ⟨s, rs, rfl, by rw [h.1]; rfl, fun hd => ?_⟩
-    have := den_exTree hd
-    rw [h.2] at this
-    exact absurd this (by decide)
-
-/-- the same history without the reading handler is fine (non-vacuity of `C17_no_stale_partial`): 70 -/
-example : (runOps 30 (init exDecls fun _ => []) g7ops).map (·.2) = some [.ok 0, .ok 0, .ok 0, .ok 70] := by
+/-- **G7 (repaired)**: `c = Computed(10*x)` (x = 0); `observe(x, h)` where `h` reads `c` whenever it is notified;
+    `x = 7; read c` returns 70.  Before the repair `Observable.__set__` notified before it stored: the handler's read
+    re-validated `c` against the old `x`, `c` was clean when the store happened, and the read returned 0 (the full
+    `no_stale` was refuted by this history). -/
+example : (runOps 30 (init exDecls g7progs) g7ops).map (·.2) = some [.ok (i 0), .ok none, .ok none, .ok (i 70)] := by
   decide +kernel
+
+/-- non-vacuity of `OpOK` for a handler that reads Computables: it may subscribe to the Observable `x` -/
+example : OpOK (init exDecls g7progs) (.observe (0, 0) 0) := .observe _ _ (Or.inr (by decide))
+
+/-- the same history without the reading handler: 70 as well -/
+example : (runOps 30 (init exDecls fun _ => []) g7ops).map (·.2) = some [.ok (i 0), .ok none, .ok none, .ok (i 70)] := by
+  decide +kernel
+
+/-- values may be `None` (all theorems above quantify over such functions too): `c0 = None if x == 0 else 5`,
+    `c1 = 1 if c0 is None else 2`.  The dirty signal of a Computable carries `None` as its new value: a `_set_dirty`
+    that ignored signals with equal old and new value would never invalidate `c1` (seeded change
+    `C17-r2-set-dirty-ignores-equal`) -/
+example : (runOps 40 (init (fun o => if o = 0 then [⟨0, .obs, [.change]⟩, ⟨1, .comp, [.change]⟩, ⟨2, .comp, [.change]⟩] else [])
+      fun _ => [])
+    [.define 0 0 1 (.read (0, 0) fun x => if x = i 0 then .ret none else .ret (i 5)),
+     .define 1 0 2 (.readC 0 fun a => if a = none then .ret (i 1) else .ret (i 2)),
+     .assign (0, 0) (i 1), .read 1, .assign (0, 0) none, .read 1, .assign (0, 0) (i 0), .read 1, .read 0]).map (·.2) =
+    some [.ok none, .ok (i 1), .ok none, .ok (i 2), .ok none, .ok (i 2), .ok none, .ok (i 1), .ok none] := by
+  decide +kernel
+
+/-! ### functions that raise: non-vacuity -/
+
+/-- one owner: Observables `x` (0), `d` (1), Computables `c4` (2), `c` (3); a second owner with the Observable `flag` -/
+def flDecls : Nat → List Decl := fun o =>
+  if o = 0 then [⟨0, .obs, [.change]⟩, ⟨1, .obs, [.change]⟩, ⟨2, .comp, [.change]⟩, ⟨3, .comp, [.change]⟩]
+  else if o = 1 then [⟨0, .obs, [.change]⟩] else []
+/-- `c4 = 10 // d` -/
+def divTree : Tree := .read (0, 1) fun d => if d = i 0 then .fail else .ret (vdiv 10 d)
+
+/-- G11 (repaired): `c4 = 10 // d` with `d = 1` is 10; `d = 0`: the read raises; the next read raises again (before
+    the repair it re-validated the half-built dependency set and served the 10 cached before the failure); `d = 2`: 5 -/
+example : (runOps 40 (init flDecls fun _ => [])
+    [.assign (0, 1) (i 1), .define 0 0 2 divTree, .assign (0, 1) (i 0), .read 0, .read 0, .assign (0, 1) (i 2), .read 0]).map (·.2) =
+    some [.ok none, .ok (i 10), .ok none, .err .user, .err .user, .ok none, .ok (i 5)] := by decide +kernel
+
+/-- G12 (repaired): `c = x + (c4 if flag else 0)` reads `x`, then `flag` (another owner), then `c4`: the remembered
+    values are kept per owner, so the dirty pre-check looks at `x`, `c4`, `flag` in that order.  With `flag = 0` and
+    `d = 0` the function does not read `c4` any more and returns 0; before the repair the pre-check let the
+    `ZeroDivisionError` of `c4` through and every later read of `c` raised -/
+example : (runOps 60 (init flDecls fun _ => [])
+    [.assign (0, 1) (i 1), .assign (1, 0) (i 1), .define 0 0 2 divTree,
+     .define 1 0 3 (.read (0, 0) fun x => .read (1, 0) fun fl => if fl = i 0 then .ret x else .readC 0 fun a => .ret (vadd x a)),
+     .assign (1, 0) (i 0), .assign (0, 1) (i 0), .read 1, .read 1]).map (·.2) =
+    some [.ok none, .ok none, .ok (i 10), .ok (i 10), .ok none, .ok none, .ok (i 0), .ok (i 0)] := by decide +kernel
+
+/-- non-vacuity of `C17_raise_is_fresh` / `DenFail`: with `d = 0` the function of `c4` raises -/
+example (s : St) (h : s.store (0, 1) = i 0) : DenFail s divTree := by
+  refine .read _ _ ?_
+  rw [h]; exact .fail
+
+/-- … and of the hypotheses about definitions: `divTree` is an admissible function -/
+example : Pure divTree ∧ Ranked 0 divTree :=
+  ⟨.read _ _ fun d => by by_cases h : d = i 0 <;> simp only [h, if_true, if_false] <;> first | exact .fail | exact .ret _,
+   .read _ _ fun d => by by_cases h : d = i 0 <;> simp only [h, if_true, if_false] <;> first | exact .fail | exact .ret _⟩
+
+/-- non-vacuity of `C17_read_leaves_clean_and_later_untouched`: `c4 = 10 // d`, `c = x + c4`; after `x = 3` the read
+    of `c` runs the function of `c` a second time and not that of `c4` (clean: counter still 1) -/
+example : (runOps 60 (init flDecls fun _ => [])
+    [.assign (0, 1) (i 1), .define 0 0 2 divTree,
+     .define 1 0 3 (.read (0, 0) fun x => .readC 0 fun a => .ret (vadd x a)),
+     .assign (0, 0) (i 3), .read 1]).map
+      (fun res => (res.2.getLast?, (res.1.comps 0).map (·.evals), (res.1.comps 1).map (·.evals))) =
+    some (some (.ok (i 13)), some 1, some 2) := by decide +kernel
+
+/-- non-vacuity of `C17_minimal` for a Computable read in turn: `c4 = 10 // d`, `c = x + c4`.  `d = 2`, then `d = 1`
+    again: reading `c` re-validates both and runs nothing (counters 1, 1); `d = 2`: reading `c` runs both (2, 2), `c4`
+    because the `d` it remembers is stale, `c` because the `c4` it remembers is -/
+example : (runOps 60 (init flDecls fun _ => [])
+    [.assign (0, 1) (i 1), .define 0 0 2 divTree,
+     .define 1 0 3 (.read (0, 0) fun x => .readC 0 fun a => .ret (vadd x a)),
+     .assign (0, 1) (i 2), .assign (0, 1) (i 1), .read 1]).map
+      (fun res => (res.2.getLast?, (res.1.comps 0).map (·.evals), (res.1.comps 1).map (·.evals))) =
+    some (some (.ok (i 10)), some 1, some 1) := by decide +kernel
+
+example : (runOps 60 (init flDecls fun _ => [])
+    [.assign (0, 1) (i 1), .define 0 0 2 divTree,
+     .define 1 0 3 (.read (0, 0) fun x => .readC 0 fun a => .ret (vadd x a)),
+     .assign (0, 1) (i 2), .read 1]).map
+      (fun res => (res.2.getLast?, (res.1.comps 0).map (·.evals), (res.1.comps 1).map (·.evals))) =
+    some (some (.ok (i 5)), some 2, some 2) := by decide +kernel
 
 /-! ### cycles: non-vacuity -/
 
 def cyDecls : Nat → List Decl :=
   fun o => if o = 0 then [⟨0, .obs, [.change]⟩, ⟨1, .obs, [.change]⟩, ⟨2, .comp, [.change]⟩, ⟨3, .comp, [.change]⟩] else []
 /-- `f = (read x; p := 1; x := 1; return 0)`: the witness of G10 -/
-def cyTree : Tree := .read (0, 0) fun _ => .write (0, 1) 1 (.write (0, 0) 1 (.ret 0))
+def cyTree : Tree := .read (0, 0) fun _ => .write (0, 1) (i 1) (.write (0, 0) (i 1) (.ret (i 0)))
 
 /-- the G10 witness is rejected now (it was evaluated without error: the assignment to `p` cleared the record) … -/
 example : (step 30 (init cyDecls fun _ => []) (.define 0 0 2 cyTree)).map (·.2) = some (.err .value) := by
@@ -333,20 +508,20 @@ example : (step 30 (init cyDecls fun _ => []) (.define 0 0 2 cyTree)).map (·.2)
 /-- … so is the direct cycle, and a cycle with a nested evaluation between the read and the assignment
     (`c0 = p`, `c1 = (read x; read c0; x := 1)`, `c0` dirty and changed when `c1` reads it) -/
 example :
-    (step 30 (init cyDecls fun _ => []) (.define 0 0 2 (.read (0, 0) fun _ => .write (0, 0) 1 (.ret 0)))).map (·.2) =
+    (step 30 (init cyDecls fun _ => []) (.define 0 0 2 (.read (0, 0) fun _ => .write (0, 0) (i 1) (.ret (i 0))))).map (·.2) =
       some (.err .value) := by
   decide +kernel
 
 example : (runOps 40 (init cyDecls fun _ => [])
-    [.define 0 0 2 (.read (0, 1) fun x => .ret x), .assign (0, 1) 5,
-     .define 1 0 3 (.read (0, 0) fun _ => .readC 0 fun _ => .write (0, 0) 1 (.ret 0))]).map (·.2) =
-    some [.ok 0, .ok 0, .err .value] := by decide +kernel
+    [.define 0 0 2 (.read (0, 1) fun x => .ret x), .assign (0, 1) (i 5),
+     .define 1 0 3 (.read (0, 0) fun _ => .readC 0 fun _ => .write (0, 0) (i 1) (.ret (i 0)))]).map (·.2) =
+    some [.ok (i 0), .ok none, .err .value] := by decide +kernel
 
 /-- no false rejection: `c0 = x` is evaluated, afterwards the function of `c1` assigns `x` without reading it
     (before the repair the read of the *earlier* evaluation was still on record and `c1` was rejected) -/
 example : (runOps 40 (init cyDecls fun _ => [])
-    [.define 0 0 2 (.read (0, 0) fun x => .ret x), .define 1 0 3 (.write (0, 0) 5 (.ret 1)), .read 0]).map (·.2) =
-    some [.ok 0, .ok 1, .ok 5] := by decide +kernel
+    [.define 0 0 2 (.read (0, 0) fun x => .ret x), .define 1 0 3 (.write (0, 0) (i 5) (.ret (i 1))), .read 0]).map (·.2) =
+    some [.ok (i 0), .ok (i 1), .ok (i 5)] := by decide +kernel
 
 /-- a state inside the evaluation of Computed 0 -/
 def cySt : St :=
@@ -354,25 +529,25 @@ def cySt : St :=
 
 /-- non-vacuity of `C17_cycle_rejected`: the path of the G10 witness — read `x`, assign `p` (completed), arrive at the
     assignment to `x` — exists -/
-example : ∃ s', TSteps (exec 30) cyTree cySt (.write (0, 0) 1 (.ret 0)) s' := by
-  have h1 : (addParent cySt 0 (.obs (0, 0)) (cySt.store (0, 0))).2 = .ok 0 := by decide +kernel
-  have hr : TStep (exec 30) cyTree cySt (.write (0, 1) 1 (.write (0, 0) 1 (.ret 0)))
+example : ∃ s', TSteps (exec 30) cyTree cySt (.write (0, 0) (i 1) (.ret (i 0))) s' := by
+  have h1 : (addParent cySt 0 (.obs (0, 0)) (cySt.store (0, 0))).2 = .ok none := by decide +kernel
+  have hr : TStep (exec 30) cyTree cySt (.write (0, 1) (i 1) (.write (0, 0) (i 1) (.ret (i 0))))
       { (addParent cySt 0 (.obs (0, 0)) (cySt.store (0, 0))).1 with
         proc := (0, 0) :: (addParent cySt 0 (.obs (0, 0)) (cySt.store (0, 0))).1.proc } :=
-    TStep.read (u := 0) (0, 0) _ rfl (Prod.ext rfl h1)
-  have h2 : ((exec 30 (.assign (0, 1) 1) { (addParent cySt 0 (.obs (0, 0)) (cySt.store (0, 0))).1 with
-        proc := (0, 0) :: (addParent cySt 0 (.obs (0, 0)) (cySt.store (0, 0))).1.proc }).map (·.2)) = some (.ok 0) := by
+    TStep.read (u := none) (0, 0) _ rfl (Prod.ext rfl h1)
+  have h2 : ((exec 30 (.assign (0, 1) (i 1)) { (addParent cySt 0 (.obs (0, 0)) (cySt.store (0, 0))).1 with
+        proc := (0, 0) :: (addParent cySt 0 (.obs (0, 0)) (cySt.store (0, 0))).1.proc }).map (·.2)) = some (.ok none) := by
     decide +kernel
-  cases hs : exec 30 (.assign (0, 1) 1) { (addParent cySt 0 (.obs (0, 0)) (cySt.store (0, 0))).1 with
+  cases hs : exec 30 (.assign (0, 1) (i 1)) { (addParent cySt 0 (.obs (0, 0)) (cySt.store (0, 0))).1 with
         proc := (0, 0) :: (addParent cySt 0 (.obs (0, 0)) (cySt.store (0, 0))).1.proc } with
   | none => rw [hs] at h2; cases h2
   | some res =>
     obtain ⟨s3, r3⟩ := res
     rw [hs] at h2; simp only [Option.map_some, Option.some.injEq] at h2; subst h2
-    exact ⟨s3, .head hr (.head (.write (0, 1) 1 _ hs) (.refl _ _))⟩
+    exact ⟨s3, .head hr (.head (.write (0, 1) (i 1) _ hs) (.refl _ _))⟩
 
 /-- non-vacuity of `C17_cycle_never_returns` -/
-example : ∀ x : Int, AlwaysWrites (0, 0) ((fun _ => Tree.write (0, 1) 1 (.write (0, 0) 1 (.ret 0))) x) :=
+example : ∀ x : V, AlwaysWrites (0, 0) ((fun _ => Tree.write (0, 1) (i 1) (.write (0, 0) (i 1) (.ret (i 0)))) x) :=
   fun _ => .other _ _ _ (.write _ _)
 
 /-- non-vacuity: the G8 chain (`c0 = x`, `c1 = if flag then 10*c0 else 0`) — every read is fresh and the second
@@ -380,37 +555,37 @@ example : ∀ x : Int, AlwaysWrites (0, 0) ((fun _ => Tree.write (0, 1) 1 (.writ
 example : (runOps 40 (init (fun o => if o = 0 then [⟨0, .obs, [.change]⟩, ⟨1, .obs, [.change]⟩, ⟨2, .comp, [.change]⟩,
       ⟨3, .comp, [.change]⟩] else []) fun _ => [])
     [.define 0 0 2 (.read (0, 0) fun x => .ret x),
-     .define 1 0 3 (.read (0, 1) fun fl => if fl = 0 then .ret 0 else .readC 0 fun a => .ret (10 * a)),
-     .assign (0, 0) 1, .assign (0, 1) 1, .read 1, .assign (0, 0) 0, .read 1, .read 1]).map (·.2) =
-    some [.ok 0, .ok 0, .ok 0, .ok 0, .ok 10, .ok 0, .ok 0, .ok 0] := by decide +kernel
+     .define 1 0 3 (.read (0, 1) fun fl => if fl = i 0 then .ret (i 0) else .readC 0 fun a => .ret (vmul 10 a)),
+     .assign (0, 0) (i 1), .assign (0, 1) (i 1), .read 1, .assign (0, 0) (i 0), .read 1, .read 1]).map (·.2) =
+    some [.ok (i 0), .ok (i 0), .ok none, .ok none, .ok (i 10), .ok none, .ok (i 0), .ok (i 0)] := by decide +kernel
 
 /-- non-vacuity of `Reachable` / `DefineOK` / `DeclsOK`: the class of the examples above, `c = Computed(10*x)`
     defined, `x = 7` assigned, `c` read: a reachable state in which the read returned 70 -/
 example : DeclsOK exDecls := by
   intro o; unfold exDecls; split <;> simp
 
-example : ∃ s, Reachable exDecls s ∧ ∃ s' , step 30 s (.read 0) = some (s', .ok 70) := by
+example : ∃ s, Reachable exDecls (fun _ => []) s ∧ ∃ s' , step 30 s (.read 0) = some (s', .ok (i 70)) := by
   have ok0 : DefineOK (init exDecls fun _ => []) 0 0 1 exTree :=
     ⟨rfl, .read _ _ fun _ => .ret _, .read _ _ fun _ => .ret _, .read _ _ (by decide) fun _ => .ret _, by decide,
       by rintro ⟨c, x, hx, _⟩; simp [init] at hx⟩
-  have h1 : (step 30 (init exDecls fun _ => []) (.define 0 0 1 exTree)).map (·.2) = some (.ok 0) := by decide +kernel
+  have h1 : (step 30 (init exDecls fun _ => []) (.define 0 0 1 exTree)).map (·.2) = some (.ok (i 0)) := by decide +kernel
   cases hs1 : step 30 (init exDecls fun _ => []) (.define 0 0 1 exTree) with
   | none => rw [hs1] at h1; cases h1
   | some r1 =>
     obtain ⟨s1, v1⟩ := r1
     rw [hs1] at h1; simp only [Option.map_some, Option.some.injEq] at h1; subst h1
-    have r1 : Reachable exDecls s1 := .step .init (.define 0 0 1 exTree ok0) hs1
+    have r1 : Reachable exDecls (fun _ => []) s1 := .step .init (.define 0 0 1 exTree ok0) hs1
     have h2 : ((step 30 (init exDecls fun _ => []) (.define 0 0 1 exTree)).bind fun r =>
-        (step 30 r.1 (.assign (0, 0) 7)).map (·.2)) = some (.ok 0) := by decide +kernel
+        (step 30 r.1 (.assign (0, 0) (i 7))).map (·.2)) = some (.ok none) := by decide +kernel
     rw [hs1] at h2; simp only [Option.bind_some] at h2
-    cases hs2 : step 30 s1 (.assign (0, 0) 7) with
+    cases hs2 : step 30 s1 (.assign (0, 0) (i 7)) with
     | none => rw [hs2] at h2; cases h2
     | some r2 =>
       obtain ⟨s2, v2⟩ := r2
       rw [hs2] at h2; simp only [Option.map_some, Option.some.injEq] at h2; subst h2
-      have r2 : Reachable exDecls s2 := .step r1 (.assign (0, 0) 7) hs2
+      have r2 : Reachable exDecls (fun _ => []) s2 := .step r1 (.assign (0, 0) (i 7)) hs2
       have h3 : ((step 30 (init exDecls fun _ => []) (.define 0 0 1 exTree)).bind fun r =>
-          (step 30 r.1 (.assign (0, 0) 7)).bind fun r' => (step 30 r'.1 (.read 0)).map (·.2)) = some (.ok 70) := by
+          (step 30 r.1 (.assign (0, 0) (i 7))).bind fun r' => (step 30 r'.1 (.read 0)).map (·.2)) = some (.ok (i 70)) := by
         decide +kernel
       rw [hs1] at h3; simp only [Option.bind_some] at h3
       rw [hs2] at h3; simp only [Option.bind_some] at h3
